@@ -21,6 +21,12 @@ type Decision struct {
 	Forced bool
 }
 
+// Work is a path prefix still to be explored, with a model known to satisfy it.
+type Work struct {
+	Prefix []Decision
+	Model  map[string]uint64
+}
+
 type TapeEntry struct {
 	Kind string // u8 u16 u32 u64 int bool
 	Name string
@@ -63,7 +69,13 @@ type Exec struct {
 
 	prefix []Decision
 	taken  []Decision
-	alts   [][]Decision
+	alts   []Work
+
+	model      map[string]uint64 // concolic model: satisfies the current path condition (nil = none known)
+	startModel map[string]uint64
+	modelGen   int
+	evalGen    int
+	evalMemo   map[int]uint64
 
 	pc        []*term.Term
 	tape      []TapeEntry
@@ -90,6 +102,12 @@ type Exec struct {
 	opaque    map[string]Value
 	timeSeq   int
 
+	facts             map[int]bool
+	abstractCRC       bool
+	crcAbstracted     int
+	crcMemo           map[string]*term.Term
+	crcUses           []crcUse
+	needExact         bool
 	recoverFrame      *frame
 	recovered         []string
 	trivAsserts       int
@@ -137,7 +155,65 @@ func (x *Exec) assume(c *term.Term) {
 		return
 	}
 	x.pc = append(x.pc, c)
+	x.noteFact(c)
 	x.sol.Assert(c)
+	if x.model != nil {
+		if v, ok := x.evalTerm(c); !ok || v != 1 {
+			x.setModel(nil)
+		}
+	}
+}
+
+// noteFact records literals known to hold on this path (syntactic lookup before asking the solver).
+func (x *Exec) noteFact(c *term.Term) {
+	if x.facts == nil {
+		x.facts = map[int]bool{}
+	}
+	x.facts[c.ID] = true
+	switch c.Op {
+	case term.OpAnd:
+		x.noteFact(c.Args[0])
+		x.noteFact(c.Args[1])
+	case term.OpNot:
+		if in := c.Args[0]; in.Op == term.OpOr {
+			x.noteFact(x.ctx.Not(in.Args[0]))
+			x.noteFact(x.ctx.Not(in.Args[1]))
+		}
+	}
+}
+
+// known returns +1 if c is syntactically implied by the path condition, -1 if its negation is, 0 otherwise.
+func (x *Exec) knownFact(c *term.Term) int {
+	if x.facts == nil {
+		return 0
+	}
+	if x.facts[c.ID] {
+		return 1
+	}
+	if x.facts[x.ctx.Not(c).ID] {
+		return -1
+	}
+	switch c.Op {
+	case term.OpAnd:
+		a, b := x.knownFact(c.Args[0]), x.knownFact(c.Args[1])
+		if a == 1 && b == 1 {
+			return 1
+		}
+		if a == -1 || b == -1 {
+			return -1
+		}
+	case term.OpOr:
+		a, b := x.knownFact(c.Args[0]), x.knownFact(c.Args[1])
+		if a == 1 || b == 1 {
+			return 1
+		}
+		if a == -1 && b == -1 {
+			return -1
+		}
+	case term.OpNot:
+		return -x.knownFact(c.Args[0])
+	}
+	return 0
 }
 
 // nextDecision returns a recorded decision if we are still replaying the prefix.
@@ -149,6 +225,41 @@ func (x *Exec) nextDecision() (Decision, bool) {
 	return Decision{}, false
 }
 
+// replayed is called after a recorded decision was consumed; at the end of the prefix the model that
+// was found when the alternative was scheduled becomes the current concolic model.
+func (x *Exec) replayed() {
+	if len(x.taken) == len(x.prefix) && x.startModel != nil {
+		x.model = x.startModel
+	}
+}
+
+// evalBool evaluates c under the current concolic model (a satisfying assignment of the path condition).
+func (x *Exec) evalTerm(c *term.Term) (v uint64, ok bool) {
+	if x.model == nil {
+		return 0, false
+	}
+	defer func() {
+		if r := recover(); r != nil {
+			ok = false // FP sub-term: no concrete evaluation
+		}
+	}()
+	if x.evalMemo == nil || x.evalGen != x.modelGen {
+		x.evalMemo = map[int]uint64{}
+		x.evalGen = x.modelGen
+	}
+	return term.Eval(c, x.model, x.evalMemo), true
+}
+
+func (x *Exec) setModel(m map[string]uint64) {
+	x.model = m
+	x.modelGen++
+}
+
+func (x *Exec) schedule(d Decision, m map[string]uint64) {
+	alt := append(append([]Decision(nil), x.taken...), d)
+	x.alts = append(x.alts, Work{Prefix: alt, Model: m})
+}
+
 // branch decides a symbolic condition, forking when both sides are feasible.
 func (x *Exec) branch(cond *term.Term) bool {
 	if cond.IsConst() {
@@ -157,37 +268,71 @@ func (x *Exec) branch(cond *term.Term) bool {
 	if x.guard != nil {
 		x.unsupported("branch inside if-converted region")
 	}
-	if d, ok := x.nextDecision(); ok {
-		x.taken = append(x.taken, d)
-		if d.Val == 1 {
-			if !d.Forced {
-				x.assume(cond)
-			}
-			return true
-		}
-		if !d.Forced {
-			x.assume(x.ctx.Not(cond))
-		}
+	switch x.knownFact(cond) {
+	case 1:
+		return true
+	case -1:
 		return false
 	}
-	rt, _ := x.check(cond, nil)
+	if d, ok := x.nextDecision(); ok {
+		x.taken = append(x.taken, d)
+		if !d.Forced {
+			if d.Val == 1 {
+				x.assume(cond)
+			} else {
+				x.assume(x.ctx.Not(cond))
+			}
+		}
+		x.replayed()
+		return d.Val == 1
+	}
+	nc := x.ctx.Not(cond)
+	if v, ok := x.evalTerm(cond); ok {
+		// the model already witnesses one side; only the other side needs the solver
+		side := v == 1
+		other := nc
+		if !side {
+			other = cond
+		}
+		r, m := x.check(other, x.ctx.Vars)
+		bv := int64(0)
+		if side {
+			bv = 1
+		}
+		if r == smt.Unsat {
+			x.taken = append(x.taken, Decision{bv, true})
+			return side
+		}
+		if r == smt.Unknown {
+			x.inconcl = append(x.inconcl, "solver unknown at branch "+x.where())
+		}
+		x.schedule(Decision{1 - bv, false}, m)
+		x.taken = append(x.taken, Decision{bv, false})
+		if side {
+			x.assume(cond)
+		} else {
+			x.assume(nc)
+		}
+		return side
+	}
+	rt, mt := x.check(cond, x.ctx.Vars)
 	if rt == smt.Unsat {
 		x.taken = append(x.taken, Decision{0, true})
 		return false
 	}
-	nc := x.ctx.Not(cond)
-	rf, _ := x.check(nc, nil)
+	rf, mf := x.check(nc, x.ctx.Vars)
 	if rf == smt.Unsat && rt == smt.Sat {
 		x.taken = append(x.taken, Decision{1, true})
+		x.setModel(mt)
 		return true
 	}
 	if rt == smt.Unknown || rf == smt.Unknown {
 		x.inconcl = append(x.inconcl, "solver unknown at branch "+x.where())
 	}
 	// both feasible (or unknown): schedule the false side, continue with true
-	alt := append(append([]Decision(nil), x.taken...), Decision{0, false})
-	x.alts = append(x.alts, alt)
+	x.schedule(Decision{0, false}, mf)
 	x.taken = append(x.taken, Decision{1, false})
+	x.setModel(mt)
 	x.assume(cond)
 	return true
 }
@@ -206,15 +351,23 @@ func (x *Exec) concretize(t *term.Term, what string) int64 {
 		if !d.Forced {
 			x.assume(x.ctx.Eq(t, x.ctx.ConstS(w, d.Val)))
 		}
+		x.replayed()
 		return d.Val
 	}
 	// enumerate feasible values
 	var vals []int64
+	var models []map[string]uint64
 	excl := x.ctx.True()
-	probe := x.ctx.Var("$conc", term.BV(w))
+	if v, ok := x.evalTerm(t); ok {
+		vals = append(vals, x.ctx.Const(w, v).Int())
+		models = append(models, x.model)
+		excl = x.ctx.Not(x.ctx.Eq(t, x.ctx.Const(w, v)))
+	}
+	pname := fmt.Sprintf("$conc%d", w)
+	probe := x.ctx.Var(pname, term.BV(w))
 	for len(vals) <= x.eng.ConcretizeCap {
 		q := x.ctx.And(excl, x.ctx.Eq(probe, t))
-		r, m := x.check(q, []*term.Term{probe})
+		r, m := x.check(q, x.ctx.Vars)
 		if r == smt.Unsat {
 			break
 		}
@@ -222,9 +375,10 @@ func (x *Exec) concretize(t *term.Term, what string) int64 {
 			x.inconcl = append(x.inconcl, "solver unknown while concretizing "+what+" at "+x.where())
 			break
 		}
-		v := m["$conc"]
+		v := m[pname]
 		sv := x.ctx.Const(w, v).Int()
 		vals = append(vals, sv)
+		models = append(models, m)
 		excl = x.ctx.And(excl, x.ctx.Not(x.ctx.Eq(t, x.ctx.Const(w, v))))
 	}
 	if len(vals) == 0 {
@@ -233,12 +387,12 @@ func (x *Exec) concretize(t *term.Term, what string) int64 {
 	if len(vals) > x.eng.ConcretizeCap {
 		panic(pathEnd{"unsupported", fmt.Sprintf("more than %d feasible values for %s at %s", x.eng.ConcretizeCap, what, x.where())})
 	}
-	for _, v := range vals[1:] {
-		alt := append(append([]Decision(nil), x.taken...), Decision{v, false})
-		x.alts = append(x.alts, alt)
+	for i, v := range vals[1:] {
+		x.schedule(Decision{v, false}, models[i+1])
 	}
 	forced := len(vals) == 1
 	x.taken = append(x.taken, Decision{vals[0], forced})
+	x.setModel(models[0])
 	if !forced {
 		x.assume(x.ctx.Eq(t, x.ctx.ConstS(w, vals[0])))
 	}
